@@ -271,7 +271,9 @@ def r_dyn(ctx):
         if isinstance(call.func, ast.Attribute) and call.func.attr == 'import_token':
             c = F.constructed_class(ctx, call.func.value, fi)
             if c is not None and c.qualname in SIBLINGS and 'DYNAMICS' in SIBLINGS[c.qualname]:
-                ok = len(call.args) == 1 and F.is_name(call.args[0], p)
+                tgt = ctx.prog.find_method(c, 'import_token')
+                b_ = F.bind_args(call, tgt, True) if tgt is not None else {}
+                ok = tgt is not None and len(call.args) + len(call.keywords) == 1 and F.is_name(b_.get(tgt.params[1]), p)
     ctx.check(ok, 'R3', fi.loc, fi.qualname, 'dyn-delegates',
               '**dyn delegates to the **dynam importer with the raw cell',
               f'DynSpineImporter.import_token returns `{src(rets[0][1]) if rets else None}`')
